@@ -515,6 +515,16 @@ def run(plan, tier="quick", real_pool=False) -> RunResult:
                                 elif (a[0], a[1]) != (pred[1], pred[2]):
                                     res.add(f"C14.passthrough/{pred[1]}:stored",
                                             f"[{who}] failure record {stem!r} is {a[:2]}, plan predicts {pred[1:]}", replay)
+                                elif isinstance(value, NotCompleted) and "<raised>" not in ref_view and \
+                                        a != (value.type, value.origin, value.source,
+                                              value.message.strip().splitlines()[-1] if value.message.strip() else ""):
+                                    # the stored record against the in-memory value app(x) returns
+                                    # (serialisation must not change type, origin, source or message)
+                                    mem = (value.type, value.origin, value.source,
+                                           value.message.strip().splitlines()[-1] if value.message.strip() else "")
+                                    field = next(n for n, x, y in zip(("type", "origin", "source", "message"), a, mem) if x != y)
+                                    res.add(f"C14.record-fidelity/{wr}{idc}:{field}",
+                                            f"[{who}] failure record {stem!r} deserialises to {a}, the app returns {mem}", replay)
                                 else:
                                     # source and message of the stored record, predicted from the plan
                                     # alone (the reference goes through the same serialisation code)
